@@ -166,9 +166,11 @@ class _Log:
         return lambda *a, **k: None
 
 
-def make_cfg(uid, gid, initgroups):
+def make_cfg(uid, gid, initgroups, timeout=None):
     from gunicorn.config import Config
     cfg = Config()
+    if timeout is not None:
+        cfg.set("timeout", timeout)        # 0: the documented "no worker timeout"; the workers still heartbeat
     cfg.set("user", uid)
     cfg.set("group", gid)
     cfg.set("initgroups", initgroups)
@@ -212,7 +214,7 @@ def run_fake(row, capless=()):
     gutil.os, gutil.pwd, gtmp.os = _OsProxy(holder), _PwdProxy(holder), _OsProxy(holder)
     worker = None
     try:
-        cfg = make_cfg(row["uid"], row["gid"], row["case"]["init"])
+        cfg = make_cfg(row["uid"], row["gid"], row["case"]["init"], row.get("timeout"))
 
         def beat(w):
             # futimens with explicit times: owner of the file or root
@@ -254,6 +256,7 @@ def run_fake(row, capless=()):
     rec["capless"] = bool(capless) or row["case"].get("cap", "all") != "all"
     rec["calls"] = [c for c in (master.calls if k is master else k.calls)]
     rec["m1"] = master.snapshot()
+    rec["variant"] = "timeout=0" if row.get("timeout") == 0 else ""
     return rec
 
 
@@ -271,7 +274,7 @@ def run_real_child(spec, out_fd):
     """in a forked child: play the master, fork the worker, report through out_fd"""
     sys.path.insert(0, REPO)
     rec = {"mode": "real", "case": spec["case"], "uid": spec["uid"], "gid": spec["gid"], "ug": spec["ug"],
-           "known": spec["known"], "end": "", "loaded": False, "beat": False, "exc": "", "eperm": False, "capless": False,
+           "known": spec["known"], "variant": spec.get("variant", ""), "end": "", "loaded": False, "beat": False, "exc": "", "eperm": False, "capless": False,
            "calls": []}
     try:
         import gunicorn.config, gunicorn.workers.base, gunicorn.workers.workertmp, gunicorn.util   # noqa: before the drop
@@ -282,7 +285,7 @@ def run_real_child(spec, out_fd):
         rec["m0"] = real_creds()
         rec["atload"] = rec["w"] = rec["m0"]
         cfg = make_cfg(spec.get("user_spelling", spec["uid"]), spec.get("group_spelling", spec["gid"]),
-                       spec["case"]["init"])
+                       spec["case"]["init"], spec.get("timeout"))
 
         def beat(w):
             try:
